@@ -30,7 +30,7 @@ var c14Docs = []c14S{
 }
 
 var c14Enums = []c14S{
-	{`[]`, 'b'}, {`[1]`, 'b'}, {`[1, "a", true, null]`, 'b'}, {"[\n  1, // one\n  2\n]", 'b'}, {`[1 /* c */, 2]`, 'b'},
+	{`[]`, 'b'}, {`[1]`, 'b'}, {`[1] // c`, 'a'}, {`["a", "b"] // letters`, 'a'}, {`[1, "a", true, null]`, 'b'}, {"[\n  1, // one\n  2\n]", 'b'}, {`[1 /* c */, 2]`, 'b'},
 }
 
 func blank() byte {
